@@ -597,16 +597,11 @@ func (p *Program) Tabulate(fn *Func, e ast.Expr, subst map[types.Object]ast.Expr
 		if le.leaves[k] {
 			doms[i] = []int64{0, 1}
 		} else {
-			found := false
-			for suffix, d := range domains {
-				if strings.HasSuffix(k, suffix) {
-					doms[i] = d
-					found = true
-				}
-			}
+			d, found := domainFor(k, domains)
 			if !found {
 				return false, "no domain for leaf " + k
 			}
+			doms[i] = d
 		}
 		total *= len(doms[i])
 		if total > 5_000_000 || total == 0 {
@@ -719,16 +714,11 @@ func (p *Program) TabulateFunc(fn *Func, domains map[string][]int64, cb func(env
 		if le.leaves[k] {
 			doms[i] = []int64{0, 1}
 		} else {
-			found := false
-			for suffix, d := range domains {
-				if strings.HasSuffix(k, suffix) || strings.HasPrefix(k, suffix+"@") {
-					doms[i] = d
-					found = true
-				}
-			}
+			d, found := domainFor(k, domains)
 			if !found {
 				return false, "no domain for leaf " + k
 			}
+			doms[i] = d
 		}
 		total *= len(doms[i])
 		if total > 5_000_000 || total == 0 {
@@ -851,4 +841,32 @@ func (p *Program) TabulateFunc(fn *Func, domains map[string][]int64, cb func(env
 		}
 	}
 	return true, ""
+}
+
+
+// domainFor finds the domain of a leaf: by suffix of its key (".Colors") or
+// by the name of the local variable the key starts with ("acc" for "acc@12",
+// "first" for "first@3[i@5]").
+func domainFor(k string, domains map[string][]int64) ([]int64, bool) {
+	var names []string
+	for n := range domains {
+		names = append(names, n)
+	}
+	sort.Strings(names)
+	for _, n := range names {
+		if strings.HasSuffix(k, n) || strings.HasPrefix(k, n+"@") {
+			return domains[n], true
+		}
+	}
+	return nil, false
+}
+
+// EnvGet finds the value of the leaf that domainFor would match with name.
+func EnvGet(env map[string]int64, name string) (int64, bool) {
+	for k, v := range env {
+		if strings.HasSuffix(k, name) || strings.HasPrefix(k, name+"@") {
+			return v, true
+		}
+	}
+	return 0, false
 }
